@@ -116,15 +116,19 @@ func NewSummarizer(p *Program, regexes map[string]*RegexConst) *Summarizer {
 	return &Summarizer{prog: p, pv: pv, regexes: regexes}
 }
 
-type termEnv map[*ssa.Parameter]Term
+// termEnv maps SSA values (parameters, or any value the caller designates as
+// a string term) to terms.
+type termEnv map[ssa.Value]Term
 
 // termOf resolves a string-valued SSA value to a Term.
 func (s *Summarizer) termOf(v ssa.Value, env termEnv) (Term, bool) {
 	for i := 0; i < 20; i++ {
+		if t, ok := env[v]; ok {
+			return t, true
+		}
 		switch x := v.(type) {
 		case *ssa.Parameter:
-			t, ok := env[x]
-			return t, ok
+			return Term{}, false
 		case *ssa.Convert:
 			if isStringish(x.X.Type()) && isStringish(x.Type()) {
 				v = x.X
@@ -493,6 +497,17 @@ func (s *Summarizer) binopForm(x *ssa.BinOp, env termEnv) *Form {
 			}
 			return wrap(f)
 		}
+		// localVar == nil (an error variable kept in memory): propositional atom
+		if c, ok := b.(*ssa.Const); ok && c.Value == nil {
+			if u, ok := a.(*ssa.UnOp); ok && u.Op == token.MUL {
+				if al, ok := u.X.(*ssa.Alloc); ok {
+					return wrap(atom(&LAtom{Kind: "prop", Str: "nil(" + al.Comment + ")", Term: Term{Param: -1}, Desc: "nil(" + al.Comment + ")"}))
+				}
+				if fv, ok := u.X.(*ssa.FreeVar); ok {
+					return wrap(atom(&LAtom{Kind: "prop", Str: "nil(" + fv.Name() + ")", Term: Term{Param: -1}, Desc: "nil(" + fv.Name() + ")"}))
+				}
+			}
+		}
 		// submatches == nil
 		if c, ok := b.(*ssa.Const); ok && c.Value == nil {
 			if rc, t, ok := s.submatchOf(a, env); ok {
@@ -582,8 +597,49 @@ func (s *Summarizer) lenCmp(x *ssa.BinOp, env termEnv) *Form {
 	return nil
 }
 
-// blockCond is the conjunction of the dominating guards of b.
+// blockCond is a necessary condition for reaching b. In loop-free functions it
+// is the full path condition (the disjunction over all paths of the branch
+// conditions taken, computed by forward merging); otherwise the conjunction of
+// the dominating guards of b.
 func (s *Summarizer) blockCond(b *ssa.BasicBlock, env termEnv, what string) *Form {
+	if !hasLoop(b.Parent()) {
+		memo := map[*ssa.BasicBlock]*Form{}
+		var cond func(x *ssa.BasicBlock) *Form
+		cond = func(x *ssa.BasicBlock) *Form {
+			if f, ok := memo[x]; ok {
+				return f
+			}
+			if len(x.Preds) == 0 {
+				memo[x] = fTrue()
+				return memo[x]
+			}
+			var alts []*Form
+			for _, p := range x.Preds {
+				c := cond(p)
+				if iff, ok := p.Instrs[len(p.Instrs)-1].(*ssa.If); ok && p.Succs[0] != p.Succs[1] {
+					ec := s.ValueForm(iff.Cond, env)
+					if u, why := ec.HasUnknown(); u {
+						s.Inexact = append(s.Inexact, fmt.Sprintf("%s: branch condition dropped (%s)", what, why))
+					} else {
+						if p.Succs[1] == x {
+							ec = fNot(ec)
+						}
+						c = fAnd(c, ec)
+					}
+				}
+				alts = append(alts, c)
+			}
+			var f *Form
+			if len(alts) == 1 {
+				f = alts[0]
+			} else {
+				f = fOr(alts...)
+			}
+			memo[x] = f
+			return f
+		}
+		return cond(b)
+	}
 	var fs []*Form
 	for _, g := range GuardsOf(b) {
 		f := s.ValueForm(g.Cond, env)
@@ -682,6 +738,8 @@ type Lang struct {
 	// Overapprox is set when some literal was evaluated by an
 	// over-approximating construction (strip terms).
 	Overapprox bool
+	// Props assigns truth values to propositional atoms (Kind "prop").
+	Props map[string]bool
 }
 
 func NewLang() *Lang { return &Lang{b: relang.NewBuilder(), cache: map[string]*relang.DFA{}} }
@@ -866,6 +924,16 @@ func (l *Lang) Eval(f *Form) (*relang.DFA, []string, error) {
 			d = relang.Literal(l.A, a.Str)
 		case "empty":
 			d = relang.Literal(l.A, "")
+		case "prop":
+			v, ok := l.Props[a.Str]
+			if !ok {
+				return nil, fmt.Errorf("propositional atom %s has no assignment", a.Str)
+			}
+			if v {
+				d = l.All()
+			} else {
+				d = relang.EmptyLang(l.A)
+			}
 		default:
 			return nil, fmt.Errorf("atom kind %s", a.Kind)
 		}
@@ -893,6 +961,9 @@ func (l *Lang) Eval(f *Form) (*relang.DFA, []string, error) {
 		n := 0
 		ok := true
 		f.Atoms(func(a *LAtom) {
+			if a.Kind == "prop" {
+				return
+			}
 			if n == 0 {
 				t = a.Term
 			} else if a.Term != t {
